@@ -236,6 +236,11 @@ class C01(Prop):
             rng.choice([3, 5, 8, 12, 20, 30])
         ops = gen.gen_history(rng, cfg, n, self.REQS, self.WEIGHTS)
         for op in ops:
+            if op['op'] == 'req' and op['cmd'] == 'set' and \
+                    rng.random() < 0.06:
+                # a value nobody can use: refused or harmless, the watchers
+                # go on being looked after
+                op['props']['options'] = {'max_age_variance': -1}
             if op['op'] == 'req' and op['cmd'] in ('incr', 'decr') and \
                     rng.random() < 0.15:
                 # any integer is accepted: negative and zero amounts
